@@ -185,6 +185,11 @@ def build_raw(form, ps):
     if form == 0:
         return None
     if form == 1:
+        # the pairs as a list, or (every other time) as a one-shot iterator: a generator / zip / map of pairs
+        if len(named) % 2 == 1:
+            return (p for p in named)
+        if len(named) % 4 == 2:
+            return zip([k for k, _ in named], [v for _, v in named])
         return named
     if form == 2:
         return dict(named)
